@@ -740,7 +740,7 @@ bool Process::open(const String& executable, const List<String>& args, uint stre
   Array<const char*> argv(args.size());
   for (List<String>::Iterator i = args.begin(), end = args.end(); i != end; ++i)
     argv.append((const char*)*i);
-  return open(executable, (int)args.size(), (char**)(const char**)argv, streams);
+  return open(executable, (int)args.size(), (char**)(const char**)argv, streams, environment);
 }
 
 void Process::close(uint streams)
